@@ -3,6 +3,6 @@ every token sequence up to the bound; the model of a typical regression (right-a
 
 
 def run(ck, thorough):
-    for cfg in (("JsClimb_a.cfg", "JsClimb_b.cfg", "JsClimb_t.cfg") if thorough else ("JsClimb_a.cfg", "JsClimb_b.cfg")):
+    for cfg in (("JsClimb_a.cfg", "JsClimb_b.cfg", "JsClimb_t.cfg") if thorough else ("JsClimb_a.cfg",)):
         ck.tlc("js", "JsClimb", cfg, label="climbing loop = ladder grammar on every token sequence (%s)" % cfg, timeout=3000, workers=min(12, ck.cores), heap="8g")
     ck.tlc("js", "JsClimb", "JsClimb_defect.cfg", label="model with a right-associative '+' is rejected", expect_violation="ClimbEqualsLadder")
